@@ -17,7 +17,7 @@ from mc.engine import Acc
 from mc.synth import openqcd as sq
 
 LEVEL = 'exploration'
-RULE = ('full product per format: openQCD reweighting factors (versions 1.4 / 1.6 / 2.0; 1..2 factors, nfct 1..2, 1..3 sources; '
+RULE = ('full product per format: openQCD reweighting factors (versions 1.4 / 1.6 / 2.0; 1..3 factors, nfct 1..3, 1..3 sources (thorough: three factor/source shapes); '
         'replica sets {r1}, {r1,r2}, {r1,r2,r10}; 6..12 measurements; first trajectory and spacing in {1,2,5} x {1,2,5}) x '
         'selection {none, r_start/r_stop grid incl. boundaries, r_step 1..3, explicit files+names}; openQCD ms.dat (read_qtop, '
         'extract_t0 / extract_w0 with dtr_cnfg / dtr_read); sfqcd gfms (read_qtop Wilson / Zeuthen flow for every c on the grid, '
@@ -75,6 +75,10 @@ def build(tier, seed):
         for reps in REPLICA_SETS:
             for first, spacing in ((1, 1), (5, 1), (2, 2), (4, 2), (10, 5), (3, 1)):
                 cases.append({'kind': 'rwms', 'version': version, 'reps': reps, 'first': first, 'spacing': spacing})
+            if tier == 'thorough':
+                for shape in (0, 2):
+                    for first, spacing in ((1, 1), (7, 1), (6, 3), (5, 5), (20, 4)):
+                        cases.append({'kind': 'rwms', 'version': version, 'reps': reps, 'first': first, 'spacing': spacing, 'shape': shape})
     for reps in REPLICA_SETS:
         for first, spacing in ((1, 1), (2, 2), (6, 3)):
             cases.append({'kind': 'msdat', 'reps': reps, 'first': first, 'spacing': spacing})
@@ -114,7 +118,9 @@ def run_case(case):
 # ----------------------------------------------------------------------------- rwms
 def run_rwms(pe, acc, case, d):
     version, reps, first, spacing = case['version'], case['reps'], case['first'], case['spacing']
-    nfct, nsrc = ([2, 1], [2, 3]) if version != '1.4' else ([1, 1], [2, 3])
+    nfct, nsrc = [([1], [1]), ([2, 1], [2, 3]), ([1, 2, 3], [3, 1, 2])][case.get('shape', 1)]
+    if version == '1.4':
+        nfct = [1] * len(nsrc)
     nmeas = {1: 11, 2: 14, 10: 9}
     prefix = 'ensA'
     trajs, cfgs, truth = {}, {}, {}
